@@ -341,7 +341,7 @@ prop("C10", harness="h_dimacs",
                   "graph type adjacency_list<vecS,vecS,undirectedS,no_property,edge_weight double> as in the demos"])
 prop("C17", harness="h_alg",
      quick=dict(shards=16, cases=5000),
-     thorough=dict(shards=16, cases=150000),
+     thorough=dict(shards=16, cases=60000),
      rule="Model-based history check: generated operation lists (<=60 ops: unit/set/copy/move construction and assignment incl. self-assignment, "
           "+, += incl. aliasing, clear, vector*vector, vector*set) over 4 registers and dimension 1..70 against a dense vector<bool> model; after "
           "EVERY operation all registers must list exactly the model's ones in strictly increasing order with matching size(); products equal the "
@@ -373,7 +373,7 @@ prop("C13", harness="h_comp",
      quick=dict(shards=16, cases=6000, env={"VERIF_MAXN": "30"},
                 extra_phases=[dict(shards=16, cases=300, env={"VERIF_MAXN": "300", "VERIF_MAXM": "900"}, seed_offset=400)]),
      thorough=dict(shards=16, cases=80000, env={"VERIF_MAXN": "60"},
-                   extra_phases=[dict(shards=16, cases=3000, env={"VERIF_MAXN": "1500", "VERIF_MAXM": "5000"}, seed_offset=400)]),
+                   extra_phases=[dict(shards=16, cases=800, env={"VERIF_MAXN": "1500", "VERIF_MAXM": "5000"}, seed_offset=400)]),
      rule="Generated simple graphs (all shapes, extra pendant trees) -> greedy_fvs; oracle: outputs are vertices, pairwise distinct, removing "
           "them leaves a forest (union-find), forest input -> empty output. Non-trivial = graph has a cycle and, replaying the emitted order, "
           "removing a chosen vertex triggers at least one leaf clean-up removal.",
@@ -395,7 +395,7 @@ prop("C16", harness="h_comp",
                 extra_phases=[dict(shards=16, cases=60, env={"VERIF_MAXN": "1300", "VERIF_MAXM": "4000"}, seed_offset=400),
                               dict(shards=16, cases=300, env={"VERIF_MAXN": "300", "VERIF_MAXM": "700"}, seed_offset=450)]),
      thorough=dict(shards=16, cases=100000, env={"VERIF_MAXN": "60"},
-                   extra_phases=[dict(shards=16, cases=600, env={"VERIF_MAXN": "5000", "VERIF_MAXM": "20000"}, seed_offset=400),
+                   extra_phases=[dict(shards=16, cases=120, env={"VERIF_MAXN": "5000", "VERIF_MAXM": "20000"}, seed_offset=400),
                                  dict(shards=16, cases=5000, env={"VERIF_MAXN": "300", "VERIF_MAXM": "700"}, seed_offset=450)]),
      rule="Generated simple graphs incl. empty, edgeless, forests, many components; oracle: indices are a bijection onto 0..m-1, both lookups "
           "inverse, components == union-find count, dimension == m-n+c, is_on_forest iff index>=dimension, on-forest edges acyclic and n-c many, "
